@@ -401,6 +401,37 @@ func (p *Prog) GlobalInitFunc(g *ssa.Global) *ssa.Function {
 	return found
 }
 
+// GlobalInitFresh reports whether an immutable package-level variable is initialised, once, with the result of
+// errors.New or fmt.Errorf (a freshly allocated error value, distinct from every other such variable).
+func (p *Prog) GlobalInitFresh(g *ssa.Global) bool {
+	if g.Pkg == nil || !p.ImmutableGlobal(g) {
+		return false
+	}
+	n, ok := 0, false
+	for _, m := range g.Pkg.Members {
+		fn, isF := m.(*ssa.Function)
+		if !isF || fn.Name() != "init" {
+			continue
+		}
+		for _, b := range fn.Blocks {
+			for _, in := range b.Instrs {
+				if st, isSt := in.(*ssa.Store); isSt && st.Addr == ssa.Value(g) {
+					n++
+					if call, isC := st.Val.(*ssa.Call); isC {
+						if callee := call.Common().StaticCallee(); callee != nil {
+							switch callee.String() {
+							case "errors.New", "fmt.Errorf":
+								ok = true
+							}
+						}
+					}
+				}
+			}
+		}
+	}
+	return n == 1 && ok
+}
+
 // GlobalInitConst returns the integer constant an immutable package-level variable is initialised with.
 func (p *Prog) GlobalInitConst(g *ssa.Global) (string, bool) {
 	if g.Pkg == nil || !p.ImmutableGlobal(g) {
